@@ -80,7 +80,11 @@ theorem gen_fringeToNm (j : Int) : Generated.C11.fringeToNm j = Model.C11.fringe
     generalize pyCeilSqrt j = c
     -- the position inside the block, `r = j - k² - 1` with `k = c - 1`
     rw [floor_eq_of _ (j - (c - 1) * (c - 1) - 1), modQ_eq_of _ _ (j - (c - 1) * (c - 1) - 1)]
-    · refine Prod.ext ?_ ?_ <;> (try simp only []) <;> (apply Py.int_shift0; push_cast; ring1)
+    · first
+      | (refine Prod.ext ?_ ?_ <;> (try simp only []) <;> (apply Py.int_shift0; push_cast; ring1))
+      | -- `n` converted by `int()` before it is used for `m`: resolve the inner `int(..)` first
+        (rw [Py.int_shift0 _ ((c - 1) + (j - (c - 1) * (c - 1) - 1) / 2) (by push_cast; ring1)]
+         refine Prod.ext ?_ ?_ <;> (try simp only []) <;> first | rfl | ring1 | (apply Py.int_shift0; push_cast; ring1))
     all_goals first | (push_cast; ring1) | norm_num
 
 
@@ -214,7 +218,7 @@ theorem gen_xyJToMn (j : Int) (hj : 1 ≤ j) : Generated.C11.xyJToMn j = some (M
     simp only []
     -- first loop: k climbs to d + 2, max_j to tri (d + 1)
     rw [whileFuel_traj' _ _ (fun i => (((i : Int) + 2), if i = 0 then 3 else tri ((i : Int) + 1))) d.toNat _ _
-      (by simp only [Nat.cast_zero, zero_add, if_true, Prod.mk.injEq]; constructor <;> first | trivial | omega | decide) (by omega)
+      (by simp only [Nat.cast_zero, zero_add, if_true, Prod.mk.injEq]; first | done | (constructor <;> first | trivial | omega | decide)) (by omega)
       (fun i hi => by
         simp only [decide_eq_true_eq]
         split
@@ -258,6 +262,8 @@ theorem gen_xyJToMn (j : Int) (hj : 1 ≤ j) : Generated.C11.xyJToMn j = some (M
       exact ⟨by omega, trivial⟩
     -- every conditional on the way (|j - y_end|, |j - x_end|, which walk) is split; each leaf is one of the two walks
     repeat' split
+    -- a walk whose start / step were chosen by a (tuple) assignment before one merged loop: substitute the chosen values
+    all_goals (try simp only [Option.bind_some])
     all_goals first
       | (rw [loop2] <;> first
           | (simp only [Option.bind_some]; done)
